@@ -3,6 +3,7 @@ package scen
 import (
 	"bytes"
 	"compress/gzip"
+	"encoding/base64"
 	"math/rand/v2"
 )
 
@@ -150,10 +151,16 @@ func (b Body) Bytes() []byte {
 		return PadText(b.Size, b.Seed)
 	case "bin":
 		return BinBytes(b.Size, b.Seed)
+	case "b64":
+		raw, _ := base64.StdEncoding.DecodeString(b.Text)
+		return raw
 	default:
 		return []byte(b.Text)
 	}
 }
+
+// Raw builds a binary-safe literal body.
+func Raw(b []byte) Body { return Body{Kind: "b64", Text: base64.StdEncoding.EncodeToString(b)} }
 
 func PadText(n, seed int) []byte {
 	r := rand.New(rand.NewPCG(uint64(seed)+1, 77))
